@@ -75,7 +75,10 @@ def check(reg, tier):
     reg.assume("jitter distribution centred on 0 for absolute-width parameters and orientation "
                "parameters inactive for 1-D data: contracts C10.pop.degenerate_single_point.*.abs.* and "
                "C10.get_mesh.orientation_inactive_in_1d.* (and C02 for the non-degenerate case)")
-    reg.assume("parity I(-q)=I(q) of the individual models' Iqac/Iqabc is not under contract here")
+    # "I(-q) = I(q)": the rotation R is linear, so the consequence needs the particle-frame function of each oriented
+    # model to be even under (qa, qb, qc) -> -(qa, qb, qc)
+    from contracts import parity
+    parity.q_parity(reg, PROP)
 
 
 def _rotation(reg, model, triaxial):
